@@ -574,3 +574,119 @@ package simple
 //@ ensures umInv(g)
 //@ ensures same(umCell(g, fid, tid), weight)
 //@ ensures g.nodes != nil ==> g.nodes[fid] == e.From() && g.nodes[tid] == e.To()
+
+// ---- dense-matrix graphs: From / To ---------------------------------------------
+//
+// From(id) from the set model: graph.Empty (isEmpty) exactly when id is not a
+// node or has no out-neighbour; otherwise a fresh ordered iterator in its
+// initial state whose slice has dmOutDeg(g, id) elements (the number of j != id
+// with a present (id, j) cell, a recursive count over the row), every element
+// is a non-nil node whose ID j satisfies dmEdge(g, id, j) (= HasEdgeFromTo), the
+// IDs are strictly increasing (so no node twice; with the length clause the
+// slice enumerates exactly the out-neighbour set), and for a graph built from
+// nodes the element is the stored node. To is the same over the column, the
+// undirected From over the (min, max) cells. Edges / WeightedEdges of both
+// matrix types are outside the subset: "OUTSIDE-SUBSET: append of non-scalar"
+// (the struct literal WeightedEdge{...} appended to a slice of interface values).
+
+//@ spec rec dmOutCnt(d []float64, row int, stride int, absent float64, j int) int decreases j =
+//@   ite(j <= 0, 0, dmOutCnt(d, row, stride, absent, j-1) + ite(j-1 != row && !wsame(d[row*stride+j-1], absent), 1, 0))
+//@ spec dmOutDeg(g *DirectedMatrix, id int) int = dmOutCnt(g.mat.mat.Data, id, g.mat.mat.Stride, g.absent, g.mat.mat.Cols)
+
+//@ spec isEmpty(r graph.Iterator) bool = hasType(r, graph.empty) && unbox(r, graph.empty) == 0
+
+//@ spec onSl(r graph.Nodes) []graph.Node = unbox(r, *iterator.OrderedNodes).nodes
+//@ spec freshOrdered(r graph.Nodes) bool = hasType(r, *iterator.OrderedNodes) && iterator.onInv(unbox(r, *iterator.OrderedNodes)) &&
+//@     unbox(r, *iterator.OrderedNodes).idx == -1 && fresh(unbox(r, *iterator.OrderedNodes).nodes)
+
+//@ func DirectedMatrix.From props: C12
+//@ requires dmInv(g)
+//@ floats: ieee
+//@ ensures !dmHas(g, id) ==> isEmpty(result)
+//@ ensures dmHas(g, id) ==> isEmpty(result) == (dmOutDeg(g, id) == 0)
+//@ ensures dmHas(g, id) && dmOutDeg(g, id) > 0 ==> freshOrdered(result) && len(onSl(result)) == dmOutDeg(g, id)
+//@ ensures dmHas(g, id) && dmOutDeg(g, id) > 0 ==> forall(k, 0, len(onSl(result)), onSl(result)[k] != nil && dmEdge(g, id, onSl(result)[k].ID()))
+//@ ensures dmHas(g, id) && dmOutDeg(g, id) > 0 ==> forall(k, 1, len(onSl(result)), onSl(result)[k-1].ID() < onSl(result)[k].ID())
+//@ ensures dmHas(g, id) && dmOutDeg(g, id) > 0 && g.nodes != nil ==> forall(k, 0, len(onSl(result)), onSl(result)[k] == g.nodes[onSl(result)[k].ID()])
+//@ loop 1: invariant len(nodes) == dmOutCnt(g.mat.mat.Data, id, g.mat.mat.Stride, g.absent, j)
+//@ invariant len(nodes) > 0 ==> fresh(nodes)
+//@ invariant forall(k, 0, len(nodes), nodes[k] != nil && nodes[k].ID() < j && dmEdge(g, id, nodes[k].ID()))
+//@ invariant forall(k, 1, len(nodes), nodes[k-1].ID() < nodes[k].ID())
+//@ invariant g.nodes != nil ==> forall(k, 0, len(nodes), nodes[k] == g.nodes[nodes[k].ID()])
+
+//@ spec rec dmInCnt(d []float64, col int, stride int, absent float64, i int) int decreases i =
+//@   ite(i <= 0, 0, dmInCnt(d, col, stride, absent, i-1) + ite(i-1 != col && !wsame(d[(i-1)*stride+col], absent), 1, 0))
+//@ spec dmInDeg(g *DirectedMatrix, id int) int = dmInCnt(g.mat.mat.Data, id, g.mat.mat.Stride, g.absent, g.mat.mat.Rows)
+
+//@ func DirectedMatrix.To props: C12
+//@ requires dmInv(g)
+//@ floats: ieee
+//@ ensures !dmHas(g, id) ==> isEmpty(result)
+//@ ensures dmHas(g, id) ==> isEmpty(result) == (dmInDeg(g, id) == 0)
+//@ ensures dmHas(g, id) && dmInDeg(g, id) > 0 ==> freshOrdered(result) && len(onSl(result)) == dmInDeg(g, id)
+//@ ensures dmHas(g, id) && dmInDeg(g, id) > 0 ==> forall(k, 0, len(onSl(result)), onSl(result)[k] != nil && dmEdge(g, onSl(result)[k].ID(), id))
+//@ ensures dmHas(g, id) && dmInDeg(g, id) > 0 ==> forall(k, 1, len(onSl(result)), onSl(result)[k-1].ID() < onSl(result)[k].ID())
+//@ ensures dmHas(g, id) && dmInDeg(g, id) > 0 && g.nodes != nil ==> forall(k, 0, len(onSl(result)), onSl(result)[k] == g.nodes[onSl(result)[k].ID()])
+//@ loop 1: invariant len(nodes) == dmInCnt(g.mat.mat.Data, id, g.mat.mat.Stride, g.absent, i)
+//@ invariant len(nodes) > 0 ==> fresh(nodes)
+//@ invariant forall(k, 0, len(nodes), nodes[k] != nil && nodes[k].ID() < i && dmEdge(g, nodes[k].ID(), id))
+//@ invariant forall(k, 1, len(nodes), nodes[k-1].ID() < nodes[k].ID())
+//@ invariant g.nodes != nil ==> forall(k, 0, len(nodes), nodes[k] == g.nodes[nodes[k].ID()])
+
+//@ spec rec umCnt(d []float64, row int, stride int, absent float64, j int) int decreases j =
+//@   ite(j <= 0, 0, umCnt(d, row, stride, absent, j-1) + ite(j-1 != row && !wsame(d[min(row, j-1)*stride+max(row, j-1)], absent), 1, 0))
+//@ spec umDeg(g *UndirectedMatrix, id int) int = umCnt(g.mat.mat.Data, id, g.mat.mat.Stride, g.absent, g.mat.mat.N)
+
+//@ func UndirectedMatrix.From props: C12
+//@ requires umInv(g)
+//@ floats: ieee
+//@ ensures !umHas(g, id) ==> isEmpty(result)
+//@ ensures umHas(g, id) ==> isEmpty(result) == (umDeg(g, id) == 0)
+//@ ensures umHas(g, id) && umDeg(g, id) > 0 ==> freshOrdered(result) && len(onSl(result)) == umDeg(g, id)
+//@ ensures umHas(g, id) && umDeg(g, id) > 0 ==> forall(k, 0, len(onSl(result)), onSl(result)[k] != nil && umEdge(g, id, onSl(result)[k].ID()) && umEdge(g, onSl(result)[k].ID(), id))
+//@ ensures umHas(g, id) && umDeg(g, id) > 0 ==> forall(k, 1, len(onSl(result)), onSl(result)[k-1].ID() < onSl(result)[k].ID())
+//@ ensures umHas(g, id) && umDeg(g, id) > 0 && g.nodes != nil ==> forall(k, 0, len(onSl(result)), onSl(result)[k] == g.nodes[onSl(result)[k].ID()])
+//@ loop 1: invariant len(nodes) == umCnt(g.mat.mat.Data, id, g.mat.mat.Stride, g.absent, i)
+//@ invariant len(nodes) > 0 ==> fresh(nodes)
+//@ invariant forall(k, 0, len(nodes), nodes[k] != nil && nodes[k].ID() < i && umEdge(g, id, nodes[k].ID()) && umEdge(g, nodes[k].ID(), id))
+//@ invariant forall(k, 1, len(nodes), nodes[k-1].ID() < nodes[k].ID())
+//@ invariant g.nodes != nil ==> forall(k, 0, len(nodes), nodes[k] == g.nodes[nodes[k].ID()])
+
+//@ func UndirectedMatrix.Nodes props: C12
+//@ requires umInv(g)
+//@ ensures g.nodes != nil ==> hasType(result, *iterator.OrderedNodes) && iterator.onInv(unbox(result, *iterator.OrderedNodes)) && unbox(result, *iterator.OrderedNodes).idx == -1 &&
+//@     len(unbox(result, *iterator.OrderedNodes).nodes) == g.mat.mat.N && fresh(unbox(result, *iterator.OrderedNodes).nodes) &&
+//@     forall(i, 0, g.mat.mat.N, unbox(result, *iterator.OrderedNodes).nodes[i] == g.nodes[i])
+//@ ensures g.nodes == nil ==> hasType(result, *iterator.ImplicitNodes) && iterator.inInv(unbox(result, *iterator.ImplicitNodes)) && unbox(result, *iterator.ImplicitNodes).beg == 0 &&
+//@     unbox(result, *iterator.ImplicitNodes).end == g.mat.mat.N && unbox(result, *iterator.ImplicitNodes).curr == -1
+
+// DirectedMatrix.Edges (WeightedEdges, and the UndirectedMatrix versions over the
+// upper triangle) are outside the subset ("OUTSIDE-SUBSET: append of non-scalar").
+// The block that would be checked, kept as plain comments (count of present
+// off-diagonal cells, every edge a present cell with distinct ends, strictly
+// increasing (from, to) pairs, so each cell exactly once):
+//
+//     spec rec dmEdgeCnt(d []float64, n int, stride int, absent float64, i int) int decreases i =
+//       ite(i <= 0, 0, dmEdgeCnt(d, n, stride, absent, i-1) + dmOutCnt(d, i-1, stride, absent, n))
+//     spec dmSize(g *DirectedMatrix) int = dmEdgeCnt(g.mat.mat.Data, g.mat.mat.Cols, g.mat.mat.Stride, g.absent, g.mat.mat.Rows)
+//     spec oeSl(r graph.Edges) []graph.Edge = unbox(r, *iterator.OrderedEdges).edges
+//     spec freshOrderedEdges(r graph.Edges) bool = hasType(r, *iterator.OrderedEdges) && iterator.oeInv(unbox(r, *iterator.OrderedEdges)) &&
+//         unbox(r, *iterator.OrderedEdges).idx == -1 && fresh(unbox(r, *iterator.OrderedEdges).edges)
+//     spec lexLt(a int, b int, c int, d int) bool = a < c || (a == c && b < d)
+
+//     func DirectedMatrix.Edges props: C12
+//     requires dmInv(g)
+//     floats: ieee
+//     ensures isEmpty(result) == (dmSize(g) == 0)
+//     ensures dmSize(g) > 0 ==> freshOrderedEdges(result) && len(oeSl(result)) == dmSize(g)
+//     ensures dmSize(g) > 0 ==> forall(k, 0, len(oeSl(result)), oeSl(result)[k] != nil && oeSl(result)[k].From() != nil && oeSl(result)[k].To() != nil &&
+//         dmEdge(g, oeSl(result)[k].From().ID(), oeSl(result)[k].To().ID()))
+//     ensures dmSize(g) > 0 ==> forall(k, 1, len(oeSl(result)), lexLt(oeSl(result)[k-1].From().ID(), oeSl(result)[k-1].To().ID(), oeSl(result)[k].From().ID(), oeSl(result)[k].To().ID()))
+//     loop 1: invariant len(edges) == dmEdgeCnt(g.mat.mat.Data, g.mat.mat.Cols, g.mat.mat.Stride, g.absent, i)
+//     invariant len(edges) > 0 ==> fresh(edges)
+//     invariant forall(k, 0, len(edges), edges[k] != nil && edges[k].From() != nil && edges[k].To() != nil && edges[k].From().ID() < i && dmEdge(g, edges[k].From().ID(), edges[k].To().ID()))
+//     invariant forall(k, 1, len(edges), lexLt(edges[k-1].From().ID(), edges[k-1].To().ID(), edges[k].From().ID(), edges[k].To().ID()))
+//     loop 2: invariant len(edges) == dmEdgeCnt(g.mat.mat.Data, g.mat.mat.Cols, g.mat.mat.Stride, g.absent, i) + dmOutCnt(g.mat.mat.Data, i, g.mat.mat.Stride, g.absent, j)
+//     invariant len(edges) > 0 ==> fresh(edges)
+//     invariant forall(k, 0, len(edges), edges[k] != nil && edges[k].From() != nil && edges[k].To() != nil && lexLt(edges[k].From().ID(), edges[k].To().ID(), i, j) && dmEdge(g, edges[k].From().ID(), edges[k].To().ID()))
+//     invariant forall(k, 1, len(edges), lexLt(edges[k-1].From().ID(), edges[k-1].To().ID(), edges[k].From().ID(), edges[k].To().ID()))
